@@ -86,6 +86,7 @@ def check(rep, ctx):
         rep.check(R_R, I.is_subclass(mod.env.vars[nm], base), construct=f"kio.index:{nm}", stmt=f"class {nm}",
                   message=f"{nm} is not a KioIndexError", file=src.rel, line=mod.env.vars[nm].node.lineno)
     funcs = {n: f for n, f in mod.env.vars.items() if isinstance(f, FuncV) and f.module == "kio.index"}
+    deferred: list[str] = []
     expected = {"load_entity_module": {"UnknownEntity"}, "load_payload_module": allowed, "load_entity_schema": {"UnknownEntity"},
                 "load_response_schema": allowed, "load_request_schema": allowed}
     for name, exp in expected.items():
@@ -106,7 +107,8 @@ def check(rep, ctx):
         try:
             paths = I.explore(lambda run: I.call(f, args, {}, run, None))
         except Limit as e:
-            raise AnalysisError(f"kio.index.{name} not understood: {e}")
+            deferred.append(f"kio.index.{name} not understood with symbolic keys: {e}")
+            continue
         raised = set()
         returns = 0
         for p in paths:
@@ -127,5 +129,47 @@ def check(rep, ctx):
                   stmt=f"may raise {sorted(raised)}; {returns} returning path(s)",
                   message=f"with symbolic arguments the function may raise {sorted(raised)} (documented: {sorted(exp)})",
                   file=src.rel, line=f.node.lineno, details={"paths": len(paths)})
+    # exhaustive evaluation of the lookup functions on every valid key (E2, concrete arguments) --------------------
+    R_L = rep.rule("C09-lookup", "every lookup function, evaluated from kio/index.py's source on every existing (name | key, version, "
+                   "type), returns exactly the corresponding module / class", floor=2500,
+                   necessary_because="a falsy-zero test (`version or latest`, `if not api_key`) breaks exactly version 0 / API key 0 (Produce)")
+    from ..values import ModuleV, EnumMemberV
+    members = ET.flags["enum"]
+    key_of_api = {v: int(k) for k, v in akm.items()}
+
+    def ev(fname, args, want, what):
+        f = funcs.get(fname)
+        if f is None:
+            raise AnalysisError(f"anchor vanished: kio.index.{fname}")
+        try:
+            got = I.call(f, args, {}, Run(), None)
+            err = None
+        except Raised as r:
+            got, err = None, f"raises {short_exc(r.cls)}"
+        except Limit as e:
+            raise AnalysisError(f"kio.index.{fname} not understood: {e}")
+        ok = got is want
+        rep.check(R_L, ok, construct=f"kio.index:{fname}", stmt=f"{fname}{what}",
+                  message=f"{fname}{what} -> {getattr(got, 'ref', getattr(got, 'name', got))} {err or ''}; expected {getattr(want, 'ref', getattr(want, 'name', want))}",
+                  file=src.rel, line=f.node.lineno, instance=f"{fname}|{what}")
+    for mname, m in sorted(S.modules.items()):
+        tops = S.top_level(m)
+        if len(tops) != 1 or m["type"] not in members:
+            continue
+        cls_v = I.entity_class(tops[0]["key"])
+        mod_v = I.module(mname)
+        et = members[m["type"]]
+        ev("load_entity_module", [m["api"], m["version"], et], mod_v, (m["api"], m["version"], m["type"]))
+        ev("load_entity_schema", [m["api"], m["version"], et], cls_v, (m["api"], m["version"], m["type"]))
+        if m["type"] in ("request", "response") and m["api"] in key_of_api:
+            k = key_of_api[m["api"]]
+            ev("load_payload_module", [k, m["version"], et], mod_v, (k, m["version"], m["type"]))
+            ev("load_request_schema" if m["type"] == "request" else "load_response_schema", [k, m["version"]], cls_v, (k, m["version"]))
+            other = S.modules.get(mname.rsplit(".", 1)[0] + (".response" if m["type"] == "request" else ".request"))
+            if other is not None and len(S.top_level(other)) == 1:
+                ev("load_response_from_request" if m["type"] == "request" else "load_request_from_response", [cls_v],
+                   I.entity_class(S.top_level(other)[0]["key"]), (tops[0]["key"],))
+    if deferred and not rep.findings:
+        raise AnalysisError(deferred[0])
     rep.extra.update(index_entries=sum(len(tm) for vm in snm.values() for tm in vm.values()), api_keys=len(akm))
     rep.trusted_base += ["kverif literal evaluation of the nested MappingProxyType({...}) tables", "kverif E2 on kio/index.py"]
